@@ -67,7 +67,7 @@ if os.path.exists(sp):
         for pid, c in sorted(v["checks"].items()):
             out.append("| `%s` | %s | %s | %s | %s | %s |" % (k, v.get("note", ""), "yes" if v["killed_by_shipped_suite"] else "no", pid,
                        "yes" if c["caught"] else "**no**", ", ".join("`%s`" % x for x in c["facets"][:4])))
-    out.append("\nThe builders of the other property packages ran their own mutant campaigns (tables in their package comments and in `tools/mutants/reports/`).\n")
+    out.append("\nEvery hand-made mutant is defined in `tools/mutants/*.py` and measured by `tools/mutate.py` (results in `sensitivity.json`); the independent seeded changes of 11.1 are the larger sample.\n")
 seeded_text = "\n".join(out) + "\n"
 
 p = os.path.join(ROOT, "DESIGN.md")
